@@ -73,6 +73,27 @@ class Cols:
         raise H.Unsupported("iteration over the cells of a line outside map()")
 
 
+numeric_row = z3.Function("every_cell_is_a_number", LineS, B)
+
+
+class Values(H.IndexedSeq):
+    """list(map(_parse_string_as_float, line.split())): the numbers of a row whose cells are all numeric"""
+
+    def __init__(self, cols):
+        self.cols = cols
+
+    def length(self):
+        return self.cols.length()
+
+    def item(self, k):
+        kz = H._z(k)
+        if not ctx().decide(z3.And(kz >= 0, kz < ncols(self.cols.sep)(self.cols.line.t)), "value exists"):
+            raise H.SymIndexError("list index out of range")
+        return Rv(numf(col(self.cols.sep)(self.cols.line.t, kz)))
+
+    __getitem__ = item
+
+
 class MappedCols:
     """tuple(map(f, line.split(sep))): unpacked by the real code; yields cells as long as the line has them"""
 
@@ -105,6 +126,16 @@ class LineObj:
 
     def isnumeric(self):
         return ctx().decide(isnum(self.t), "line is numeric")
+
+    def __contains__(self, text):
+        if not isinstance(text, str):
+            raise H.Unsupported("`in` with a non-literal")
+        return ctx().decide(z3.Function(f"contains_{text}", LineS, B)(self.t), f"line contains {text!r}")
+
+    def replace(self, a, b):
+        if (a, b) != (",", "."):
+            raise H.Unsupported("replace other than decimal comma -> point")
+        return self             # (which number a cell denotes is numf's business)
 
     def lower(self):
         return self
@@ -158,6 +189,11 @@ def namespace(space, calls: List[Any], st: Dict[str, Any]) -> Dict[str, Any]:
 
     class s_list(metaclass=type(base_list)):
         def __new__(cls, x=()):
+            if isinstance(x, MappedCols):
+                # every cell is converted: a cell that is not a number makes _parse_string_as_float raise ValueError
+                if not ctx().decide(numeric_row(x.cols.line.t), "every cell of the line is a number"):
+                    raise ValueError("could not convert string to float")
+                return Values(x.cols)
             if isinstance(x, _Marker):
                 if sorted(x.ops) != ["lower", "strip"] or not x.filtered:
                     raise H.Unsupported(f"unexpected cleaning of the lines: {x.ops}, filtered={x.filtered}")
@@ -385,9 +421,99 @@ def target_line_parsers():
             c.check("parse_dfr returns what dataframe_to_data_sets returns", z3.BoolVal(out is st["result"]), "post")
         H.explore(sess, [], go_dfr)
 
+        # ------------------------------------------------------------------ parse_dta
+        from os.path import basename, splitext
+        specs = H.LoopSpecs()
+        vc = H.VC(specs, space)
+        vc.factories = {"data_sets": lambda items: list(items)}
+        ws = None
+        DC = z3.Function("drift_correction_announced_before_line", z3.ArraySort(I, LineS), I, B)
+        has1 = z3.Function("contains_1", LineS, B)
+        has_dr = z3.Function("contains_zrealdrcor", LineS, B)
+        cell = lambda ln, kk: numf(col(ws)(ln, kk))       # noqa: E731
+        plain_row = lambda ln: (cell(ln, 2), cell(ln, 3), cell(ln, 4))       # noqa: E731
+
+        @specs.add("parse_dta", "w1")
+        def _(env):
+            lines = env.unique(H.SymSeq, "lines")
+            dc = env.loc["drift_corrected"]
+            return [("the ZCURVE line has not been passed", z3.And(lines.start >= 0, lines.start <= st["z"], lines.end == st["N"])),
+                    ("drift correction is on exactly if a DRIFTCOR line containing 1 was seen", DC(st["L"], lines.start) == z3.BoolVal(bool(dc)))]
+
+        @specs.add("parse_dta", "w2")
+        def _(env):
+            b = st["z"] + 3
+            lines = env.unique(H.SymSeq, "lines")
+            dc = bool(env.loc["drift_corrected"])
+            out = rows_inv(env, b, st, plain_row)
+            dr, di = env.loc["drift_corrected_real"], env.loc["drift_corrected_imag"]
+            n = lines.start - b
+            j0 = st["j0"]
+            ln = z3.Select(st["L"], b + j0)
+            out += [("the numeric block has not been passed", lines.start <= st["e"]),
+                    ("the flag is the one found in the header", z3.BoolVal(dc) == DC(st["L"], st["z"])),
+                    ("drift corrected columns: one entry per row read when drift correction is on, none otherwise", z3.And(dr.len == (n if dc else 0), di.len == (n if dc else 0))),
+                    ("drift corrected row j is cells 8 and 9 of data line j", z3.Implies(z3.And(z3.BoolVal(dc), 0 <= j0, j0 < n), z3.And(z3.Select(dr.arr, j0) == cell(ln, 8), z3.Select(di.arr, j0) == cell(ln, 9))))]
+            return out
+        real_dta = H.build_function(core.find_def("data/formats/dta", "parse_dta"), dict(ns, basename=basename, splitext=splitext), vc)
+        no_raise_t = make_no_raise("data/formats/dta")
+
+        def go_dta(c):
+            counts["paths"] += 1
+            N, L = fresh_file(c)
+            z, e = z3.Int("z"), z3.Int("e")
+            st.update(z=z, e=e, result=["one data set"])
+            b = z + 3
+            drift = DC(L, z)
+            any_line = z3.Const("any_line", LineS)
+            c.assume(0 <= z, b < e, e <= N, sw("zcurve")(line(L, z)), sw("pt")(line(L, z + 1)), sw("#")(line(L, z + 2)), z3.Implies(drift, has_dr(line(L, z + 1))),
+                     z3.Not(DC(L, 0)),
+                     z3.ForAll([k], z3.Implies(z3.And(0 <= k, k < N), DC(L, k + 1) == z3.Or(DC(L, k), z3.And(sw("driftcor")(line(L, k)), has1(line(L, k))))), patterns=[DC(L, k + 1)]),
+                     z3.ForAll([any_line], z3.Not(z3.And(sw("driftcor")(any_line), sw("zcurve")(any_line))), patterns=[sw("zcurve")(any_line)]),
+                     z3.ForAll([k], z3.Implies(z3.And(0 <= k, k < z), z3.Not(sw("zcurve")(line(L, k)))), patterns=[sw("zcurve")(line(L, k))]),
+                     z3.ForAll([k], z3.Implies(z3.And(b <= k, k < e), z3.And(numeric_row(line(L, k)), ncols(ws)(line(L, k)) >= z3.If(drift, 10, 5))), patterns=[numeric_row(line(L, k))]),
+                     z3.Or(e == N, z3.Not(numeric_row(line(L, e)))))
+            ok, out = no_raise_t("parse_dta (well-formed file: DRIFTCOR / ZCURVE header, a 'Pt' and a '#' line, then rows of numbers until the first line that is not one)", lambda: real_dta("dir/sample.dta"))
+            if not ok:
+                return
+            c.canary("parse_dta, at return")
+            dc = any("drift_corrected" in w and v for w, v in c.log) or any("drift correction" in w and v for w, v in c.log)
+            n_rows = e - b
+            j0 = st["j0"]
+            ln = z3.Select(L, b + j0)
+
+            def table_ok(call, rf, rr, ri, what):
+                okc = isinstance(call[0], tuple) and call[0][0] == "frame" and isinstance(call[0][1], dict) and sorted(call[0][1]) == ["frequency", "imaginary", "real"]
+                c.check(f"parse_dta: the {what} table has frequency / real / imaginary", z3.BoolVal(okc), "post")
+                if not okc:
+                    return
+                d = call[0][1]
+                f, r, im = d["frequency"], d["real"], d["imaginary"]
+                if not all(isinstance(x, H.SymList) for x in (f, r, im)):
+                    c.check(f"parse_dta: the {what} table holds the lists the parser filled", z3.BoolVal(False), "post")
+                    return
+                c.check(f"parse_dta: the {what} table has one row per numeric line after the header", z3.And(f.len == n_rows, r.len == n_rows, im.len == n_rows), "post")
+                c.check(f"parse_dta: row j of the {what} table is data line j: frequency = cell 2, real / imaginary = cells {rr} / {ri}",
+                        z3.Implies(z3.And(0 <= j0, j0 < n_rows), z3.And(z3.Select(f.arr, j0) == cell(ln, rf), z3.Select(r.arr, j0) == cell(ln, rr), z3.Select(im.arr, j0) == cell(ln, ri))), "post")
+            drift_now = c.decide(drift, "drift correction announced")
+            want_calls = 2 if drift_now else 1
+            c.check("parse_dta: one table per spectrum (two when drift correction is on: corrected first, then uncorrected)", z3.BoolVal(len(calls) == want_calls), "post")
+            if len(calls) != want_calls:
+                return
+            if drift_now:
+                table_ok(calls[0], 2, 8, 9, "drift corrected")
+                table_ok(calls[1], 2, 3, 4, "uncorrected")
+                labels = [calls[0][2].get("label"), calls[1][2].get("label")]
+                c.check("parse_dta: labels '<file> (drift corrected)' and '<file> (uncorrected)', the path handed on", z3.BoolVal(labels == ["sample (drift corrected)", "sample (uncorrected)"] and all(cl[1] == "dir/sample.dta" for cl in calls)), "post")
+            else:
+                table_ok(calls[0], 2, 3, 4, "only")
+                c.check("parse_dta: label '<file>', the path handed on", z3.BoolVal(calls[0][2].get("label") == "sample" and calls[0][1] == "dir/sample.dta"), "post")
+            c.check("parse_dta returns the data sets of its tables, in order", z3.BoolVal(out == ["one data set"] * want_calls), "post")
+        H.explore(sess, [], go_dta)
+
         sess.check("cover", [], z3.BoolVal(counts["paths"] >= 8 and len(sess.obligations) >= 60), 0, label=f"paths executed: {counts['paths']}")
         sess.assumptions.append("a file is a finite sequence of lines; str.strip / str.lower / the non-empty filter behave as in CPython; what number a cell's text denotes is _parse_string_as_float's business (checked natively)")
-    return ("data/formats/mpt:parse_mpt / parse_i2b / parse_p00 / parse_dfr", "data/formats/mpt", "parse_mpt", run)
+    return ("data/formats/mpt:parse_mpt / parse_i2b / parse_p00 / parse_dfr / parse_dta", "data/formats/mpt", "parse_mpt", run)
 
 
 def targets():
